@@ -1167,6 +1167,29 @@ fn fixed_third_party_invites(out: &mut Vec<Req>) {
     }
 }
 
+/// The specification's table of content keys that survive redaction, per room version (room version
+/// specs, "Redactions"), written here from the specification and NOT derived from the implementation.
+fn spec_keeps_content_key(v: u32, ty: &str, k: &str) -> bool {
+    match ty {
+        "m.room.member" => k == "membership" || (k == "join_authorised_via_users_server" && v >= 9),
+        "m.room.create" => v >= 11 || k == "creator",
+        "m.room.join_rules" => k == "join_rule" || (k == "allow" && v >= 8),
+        "m.room.power_levels" => {
+            ["ban", "events", "events_default", "kick", "redact", "state_default", "users", "users_default"].contains(&k)
+                || (k == "invite" && v >= 11)
+        }
+        "m.room.history_visibility" => k == "history_visibility",
+        "m.room.aliases" => k == "aliases" && v <= 5,
+        "m.room.redaction" => k == "redacts" && v >= 11,
+        _ => false,
+    }
+}
+
+/// Some version's table names this key for this type.
+fn spec_names_key(ty: &str, k: &str) -> bool {
+    (1..=11).any(|v| spec_keeps_content_key(v, ty, k))
+}
+
 /// Deterministic cells: every room version x every event type with its own redaction rule x content
 /// carrying every key any version's table names, and for `m.room.member` every shape of
 /// `third_party_invite` (absent, empty, without `signed`, only `signed`, both) x membership:
@@ -1226,6 +1249,23 @@ fn fixed_redaction_cells(rng: &mut Rng, out: &mut Vec<Req>) {
                     continue;
                 }
                 out.push(verify_req(v, "signed", &keys, &ev, "verify.cell-signed"));
+                // One content key changed after signing, classified by the SPECIFICATION's table of
+                // retained content keys (an independent transcription, not the implementation's
+                // redact()): a key redaction keeps is covered by the signatures, so the change must be
+                // refused; a key it strips is covered by the content hash only, so the signatures hold
+                // and the hash does not. (`third_party_invite`, `membership` and
+                // `join_authorised_via_users_server` also steer which servers must sign and are left to
+                // the streams above.)
+                if tpi.is_none() && membership == "join" && !required.is_empty() {
+                    for k in CONTENT_KEYS.iter().filter(|k| spec_names_key(ty, k) || **k == "zz.fresh" || **k == "body") {
+                        let mut e2 = ev.clone();
+                        if let Some(Val::Object(c)) = e2.get_mut("content") {
+                            c.insert((*k).to_owned(), Val::String(format!("changed-{k}")));
+                        }
+                        let tag = if spec_keeps_content_key(v, ty, k) { "kept-mut" } else { "strip-mut" };
+                        out.push(verify_req(v, tag, &keys, &e2, &format!("verify.cell-{tag}")));
+                    }
+                }
                 let Ok(red) = redact(ev.clone(), &r.redaction, None) else { continue };
                 let tag_of = |o: &Obj| match spec_servers(v, o) {
                     Some(need) if need.iter().all(|s| signers.iter().any(|x| &x.entity == s)) => "redacted",
